@@ -227,6 +227,9 @@ class EnvSession:
         from tradingenv.broker.broker import EndOfEpisodeError
 
         r = self.r
+        if getattr(self, "dead", False) and op[0] != "reset":
+            return None
+        self.dead = False
         if self.emit_use:
             r.op(f"use {self.name}")
         kind = op[0]
@@ -261,8 +264,15 @@ class EnvSession:
             finally:
                 np.random.choice = orig
             eff_start = min(start, captured["n"] - 1) if captured.get("n") else 0
-            r.op(f"ereset {lo} {hi} {eff_start}", st if st.startswith("ok") else None)
+            r.op(f"ereset {lo} {hi} {eff_start}", st)
             o.update(status=st, sampler=captured, start=eff_start, lo=lo, hi=hi)
+            if not st.startswith("ok"):
+                # the implementation is left half-reset; nothing further is meaningful on this environment
+                self.dead = True
+                o.update(log=[], pos={}, now=None, nrec=0, nlv=None)
+                self.obs.append(o)
+                r.trace.append(f"[{self.name}] {op} -> {st}")
+                return o
         elif kind in ("step", "stepi", "stepj"):
             if kind == "step":
                 vals = [float("nan") if v == "nan" else float(Fraction(v)) for v in op[1]]
